@@ -201,6 +201,7 @@ func checkC18(c *Ctx) error {
 		dir := w.TempDir("c18m")
 		files := map[string]string{"build-version.txt": B}
 		var last *string
+		var pipe *work.Fifo
 		args := []string{"build"}
 		for f, gi := range mj.decl {
 			y := ""
@@ -213,13 +214,25 @@ func checkC18(c *Ctx) error {
 				y += body
 			}
 			name := fmt.Sprintf("f%d.yaml", f)
-			_ = work.WriteFile(filepath.Join(dir, name), []byte(y))
 			files["input/"+name] = y
 			args = append(args, "-i", name)
+			if ji%3 == 1 && f == len(mj.decl)-1 && f > 0 {
+				// the last file (often the one whose declaration decides) arrives through a named pipe
+				if p, err := work.FeedFifo(filepath.Join(dir, name), []byte(y)); err == nil {
+					pipe = p
+					continue
+				}
+			}
+			_ = work.WriteFile(filepath.Join(dir, name), []byte(y))
 		}
 		out := filepath.Join(dir, "out.go")
 		args = append(args, "-o", out)
 		run := cli.Do(w, bins[mj.b], nil, dir, out, args...)
+		if pipe != nil {
+			if op, all := pipe.Stop(); op && all {
+				c.Add("multi_file_cases_with_the_last_file_read_from_a_pipe", 1)
+			}
+		}
 		want := ref.VersionGate(B, last)
 		got := "accept"
 		if run.Res.Exit != 0 {
